@@ -118,13 +118,13 @@ func c01HTTPRequestLine(c *Ctx) {
 // forwarded later by a worker and kept for retries. Clause: in pkg/stream/http2 that []byte is only read or copied
 // (IoBuffer.Write / copy / string conversion / len); it is never wrapped (NewIoBufferBytes), stored in a field,
 // appended as a slice value, or handed to a call that may keep it.
-func c01H2BodyCopied(c *Ctx) {
+func c01H2BodyCopied(c *Ctx, rule string) {
 	pkg := "pkg/stream/http2"
 	n := 0
 	for _, typ := range []string{"serverStreamConnection", "clientStreamConnection"} {
 		fn := c.M(pkg, typ, "handleFrame")
 		if fn == nil {
-			c.Unresolved("C01.R7", typ+".handleFrame")
+			c.Unresolved(rule, typ+".handleFrame")
 			continue
 		}
 		// sources: []byte results of HandleFrame
@@ -137,7 +137,7 @@ func c01H2BodyCopied(c *Ctx) {
 			}
 		}
 		if len(srcs) == 0 {
-			c.Unresolved("C01.R7", typ+".handleFrame: []byte result of HandleFrame")
+			c.Unresolved(rule, typ+".handleFrame: []byte result of HandleFrame")
 			continue
 		}
 		tainted := map[ssa.Value]bool{}
@@ -224,10 +224,10 @@ func c01H2BodyCopied(c *Ctx) {
 		if badAt != nil {
 			pos = badAt.Pos()
 		}
-		c.Check("C01.R7", funcKey(fn)+":body-copied-out-of-read-buffer", pos, bad == "", "the DATA payload is only copied (Write) or measured", "the HTTP/2 DATA payload, a view of the connection read buffer, is "+bad+": the next read on the connection overwrites a body that is still waiting to be forwarded (or retried)")
+		c.Check(rule, funcKey(fn)+":body-copied-out-of-read-buffer", pos, bad == "", "the DATA payload is only copied (Write) or measured", "the HTTP/2 DATA payload, a view of the connection read buffer, is "+bad+": the next read on the connection overwrites a body that is still waiting to be forwarded (or retried)")
 	}
 	if n < 2 {
-		c.Unresolved("C01.R7", "http2 handleFrame functions")
+		c.Unresolved(rule, "http2 handleFrame functions")
 	}
 }
 
